@@ -453,6 +453,17 @@ class Deflater:
         assert out.endswith(b"\x00\x00\xff\xff")
         return out[:-4]
 
+    def message_parts(self, pieces):
+        """one message, sync-flushed after every piece: -> list of DEFLATE chunks such that an inflater that was
+        given chunks[0..j] has emitted exactly pieces[0..j] (the flush marker of the last one is stripped)"""
+        out = []
+        for piece in pieces:
+            c = self.c.compress(piece) + self.c.flush(zlib.Z_SYNC_FLUSH)
+            assert c.endswith(b"\x00\x00\xff\xff")
+            out.append(c)
+        out[-1] = out[-1][:-4]
+        return out
+
 
 def selfcheck():
     from . import rfc6455_ref as ref
